@@ -66,7 +66,12 @@ def r1(ctx):
     f = ctx.fn(repo.func(ARB + ".reload"))
     g = f.cfg
     olds = [s for s in g.stmts(ast.Assign) if isinstance(s.ast.targets[0], ast.Name) and cfg_attr(s.ast.value) == "address"]
-    ctx.need(olds, "C10.R1: reload does not remember the old address")
+    ctx.check("C10.R1", bool(olds), key(f, "remembers-configured-address"), site(f),
+              "reload does not keep the configured bind address of the old configuration to compare the new one with: whether the listeners are closed and re-created is decided from "
+              "something else (e.g. getsockname() of the sockets, which differs from the configured form for host names, IPv6, port 0, fd://) -- an unchanged bind address can close the listening sockets",
+              "old_address = cfg.address before the configuration is reloaded")
+    if not olds:
+        return
     OLD = olds[0].ast.targets[0].id
 
     def changed(e):
